@@ -503,6 +503,22 @@ class Model:
                 for t in stmt.targets:
                     if isinstance(t, ast.Name):
                         c.class_attrs[t.id] = stmt.value
+                # ``name = property(fget=_get, fset=_set)``: the call form of the decorators
+                v = stmt.value
+                if isinstance(v, ast.Call) and isinstance(v.func, ast.Name) and v.func.id == "property" and len(stmt.targets) == 1 and isinstance(stmt.targets[0], ast.Name):
+                    kw = {k.arg: k.value for k in v.keywords if k.arg}
+                    fget = kw.get("fget", v.args[0] if len(v.args) > 0 else None)
+                    fset = kw.get("fset", v.args[1] if len(v.args) > 1 else None)
+                    pname = stmt.targets[0].id
+                    if isinstance(fget, ast.Name) and fget.id in c.methods:
+                        g = c.methods[fget.id][0]
+                        pf = FunctionInfo(name=pname, node=g.node, module=m, cls=c, kind="property", decorators=list(g.decorators) + ["property"])
+                        c.properties[pname] = pf
+                        c.class_attrs.pop(pname, None)
+                    if isinstance(fset, ast.Name) and fset.id in c.methods:
+                        g = c.methods[fset.id][0]
+                        g.kind = "setter"        # its writes count where the property is assigned (like a decorated setter)
+                        c.setters[pname] = FunctionInfo(name=pname, node=g.node, module=m, cls=c, kind="setter", decorators=list(g.decorators) + [pname + ".setter"])
         return c
 
     def _link(self):
